@@ -2,20 +2,90 @@
 """Generates MANIFEST.json from the table below (single source of truth for the interface)."""
 import json, sys
 
+def E(tech, text, note, ref):
+    return (tech, text, note, ref)
+
 CHECKS = {
- # id: (technique, level text, level_note, design_ref)
- "C02": ("bounded-exhaustive enumeration of (message, expected type) scopes + <=2-byte deviations of the real decoder vs. a spec-derived reference decoder and coercion function",
-         "Every (wire type, value, expected type) triple of the stated finite scopes, every legal table transformation, every hostile table of <=2 entries and every 1-byte (thorough: 2-byte) deviation is decoded by the real untyped decoder and by the reference model (strict binary grammar + coercion relation); acceptance and returned values must agree case by case.",
-         "Trusted: reference models R2/R3/R4 written from spec/Candid.md (validated against the spec's own test suite at setup); scope bounds as listed in evidence.rule.",
-         "DESIGN.md section 5, C02"),
- "C05": ("bounded-exhaustive enumeration of type-environment pairs and BFS over query histories sharing one memo (explicit-state, states merged on memo content), real subtype/equal/upgrade checks vs. a greatest-fixed-point reference",
-         "Every query of the stated scopes (all pairs of small types; all environments of two mutually recursive definitions vs. every single-definition mutant; record pairs with one flipped leaf; 10 query shapes incl. opt-probe-then-reuse) is answered by the real subtype (3 modes), subtype_check_all, equal and, through printed .did text with order/renaming variants, service_compatible / report / service_equal, and compared with the greatest fixed point computed over the reachable pair graph; histories of successful queries sharing one Gamma are explored breadth-first with the answer and the invariant 'memo is a subset of the relation' checked on every transition.",
-         "Trusted: R3 (gfp over reachable pairs) as a reading of the spec's rules. Transitivity is demanded on the null-free fragment only, because the spec's own relation is not transitive through null-typed record fields.",
-         "DESIGN.md section 5, C05; Appendix A.1, C.2"),
- "C16": ("bounded-exhaustive enumeration of principals (all byte strings of length <=2, structured families for every length 0..40) and of all single (thorough: double) deviations of their canonical texts, real ic_principal parser/printer/constructors vs. a reference CRC32/base32 implementation",
-         "Every principal of the scope is printed, parsed back and pushed through every constructor and serde/candid form; every text of the deviation scope (replace/insert/delete/dash moves/regrouping/truncation/case masks) is parsed by the real parser and by the reference parser; acceptance and the returned principal must agree.",
-         "Trusted: refmodel::hash (CRC32, RFC 4648 base32, grouping) cross-checked by a second classifier in the check. The serde binary form delivered as an owned buffer (visit_byte_buf is candid's private tag-byte channel) is counted as informational, not a verdict.",
-         "DESIGN.md section 5, C16"),
+ "C01": E("bounded-exhaustive enumeration of a compile-time corpus of ~800 Rust types x small values x 4 API pairs, plus explicit-state BFS over histories of type-derivation / builder / encode / decode operations (fresh OS thread per history, states merged on a canonical digest of memo, builders and decoder)",
+          "Every small value of every corpus type is encoded and decoded through Encode!/Decode!, encode_args/decode_args, encode_one/decode_one and IDLBuilder+IDLDeserialize+done and compared (floats by bits) with itself; two-argument messages over all ordered pairs of a reduced corpus; every history of <=4 (thorough 5) operations over the memo-sensitive types is replayed on a fresh thread, every produced message is decoded by the strict reference decoder and the real decoder, and every operation's outcome must not depend on the history.",
+          "Trusted: the corpus' own Cor::to_val (abstract value of a Rust value) and the R2 strict decoder. Rust types are a finite compile-time product, not 'all Rust types'.",
+          "DESIGN.md section 5 C01, Appendix C.1"),
+ "C02": E("bounded-exhaustive enumeration of (message, expected type) scopes + <=2-byte deviations of the real decoder vs. a spec-derived reference decoder and coercion function",
+          "Every (wire type, value, expected type) triple of the stated finite scopes, every legal table transformation, every hostile table of <=2 entries and every 1-byte (thorough: 2-byte) deviation is decoded by the real untyped decoder and by the reference model (strict binary grammar + coercion relation); acceptance and returned values must agree case by case.",
+          "Trusted: reference models R2/R3/R4 written from spec/Candid.md (self-consistency checked at setup); scope bounds as listed in evidence.rule.",
+          "DESIGN.md section 5 C02, Appendix A.2"),
+ "C03": E("bounded-exhaustive enumeration of encoder inputs (all corpus values natively, all (environment, type, value) triples through the untyped API) checked by a strict spec-derived decoder and exact re-serialisation",
+          "Every message the encoders produce in scope is decoded by the strict reference decoder (composite-only table, ascending unique ids and method names, index ranges, nothing left over), must denote exactly the input values at types structurally equal to the specified ones, and must equal the canonical re-serialisation of what was decoded (minimal LEB128, declared variant index); encoding twice and serialising a builder twice give identical bytes.",
+          "Trusted: R2 decoder/encoder of values, R3 equality, Cor::to_ty/to_val as the specified Rust mapping.",
+          "DESIGN.md section 5 C03"),
+ "C04": E("bounded-exhaustive enumeration of type pairs accepted by the real subtype check x all small values of the subtype, decoded at the supertype (untyped and native), incl. chains",
+          "For every pair of the C05 scope that the implementation's own subtype check accepts, every tiny-domain value of the subtype is encoded and decoded at the supertype: it must succeed and the result must be typed at the supertype by the reference typing judgement; decoding via an intermediate supertype differs from direct decoding only by ~ (opt to null). Native half: all ordered pairs of a reduced Rust corpus accepted by the checker.",
+          "Trusted: R1 typing and ~, R2 encoder. Environments with opt-only cycles (type A = opt A) and with uninhabited infinitely recursive records are outside the scope (the spec's coercion has no finite derivation there / the header parser rewrites them to empty).",
+          "DESIGN.md section 5 C04"),
+ "C05": E("bounded-exhaustive enumeration of type-environment pairs and BFS over query histories sharing one memo (explicit-state, states merged on memo content), real subtype/equal/upgrade checks vs. a greatest-fixed-point reference",
+          "Every query of the stated scopes is answered by the real subtype (3 modes), subtype_check_all, equal and, through printed .did text with order/renaming variants, service_compatible / report / service_equal, and compared with the greatest fixed point computed over the reachable pair graph; histories of successful queries sharing one Gamma are explored breadth-first with the answer and the invariant 'memo is a subset of the relation' checked on every transition.",
+          "Trusted: R3 (gfp over reachable pairs) as a reading of the spec's rules. Transitivity is demanded on the null-free fragment only, because the spec's own relation is not transitive through null-typed record fields.",
+          "DESIGN.md section 5 C05; Appendix A.1, C.2"),
+ "C06": E("bounded-exhaustive enumeration of byte strings, 1-byte deviations and parameter-swept hostile families x 20 targets x 8-10 decoder configurations x 3 stack classes x 2 build profiles, each call in a single-threaded worker process under a counting allocator",
+          "All byte strings DIDL+s up to the stated lengths, every 1-byte deviation of valid messages, and every member of the hostile families (huge/over-long counts at every count position, zero-sized element bombs, recursive tables, nesting 1..20000) are decoded at native and untyped targets under every configuration: each call returns Ok or Err; a panic, a dead worker, 20 s without progress or an allocation above 4 MiB + 64*|input| + 64*quota is a violation; checked and release builds must agree.",
+          "Trusted: the counting allocator and the process supervisor. 'Work proportional to the quota' is decided through allocation and termination, not timing; unmetered runs only on messages denoting <= 10^6 value nodes.",
+          "DESIGN.md section 5 C06"),
+ "C07": E("budget sweep: for every message of the scope the decoding cost is measured and then every quota value 0..=cost+2 (each a distinct abort point) is replayed on the real decoder; cost compared with a reference cost model",
+          "For every successful (wire, expected) case of the C02 scope through the untyped API, every small corpus value natively, zero-sized element vectors and surplus arguments: each run under a decoding or skipping quota is either a quota error or exactly the unmetered result; success is monotone with threshold <= reported cost; reported cost is the same under every quota; cost >= value nodes, skipping cost >= skipped nodes, cost <= 4 x the documented model.",
+          "Trusted: R5 (documented cost formula), R2 node counts, R4 to decide what is skipped. K=4 was chosen from the measured distribution (reported in evidence outcomes cost/model:*).",
+          "DESIGN.md section 5 C07"),
+ "C08": E("bounded-exhaustive enumeration of corpus Rust targets x messages at the target's type, every one-step neighbour type and byte-layout look-alikes; native decoding vs. untyped decoding at the same Candid type",
+          "For every corpus type (plus borrowed targets and BoundedVec with each limit kind) and every message of the scope, Decode! succeeds iff from_bytes_with_types at the type's Candid type succeeds (documented host limits excused and computed independently) and both denote the same abstract value.",
+          "Trusted: Cor::to_val for native results, R2 encoder for the messages, reference arithmetic for bounded-vector limits (DataSize as documented: Vec counts its 24-byte header).",
+          "DESIGN.md section 5 C08"),
+ "C09": E("bounded-exhaustive enumeration of (S)LEB128 byte strings (all strings of length <=2, thorough <=3; run-length pattern families around the 64- and 128-bit boundaries with all final byte pairs; unterminated strings) and of integers +-2^k+d, on 17 decoder and 10 encoder entry points in both build profiles",
+          "Every string of the scope is decoded by every entry point (standalone readers with a sentinel, and embedded in hand-built messages for Nat, Int, u128, i128, vectors and maps) and compared with the mathematical value, bytes consumed and range verdict of the reference; encoders must emit the minimal string; nothing panics; checked and release agree.",
+          "Trusted: refmodel::leb on big integers.",
+          "DESIGN.md section 5 C09"),
+ "C10": E("bounded-exhaustive enumeration of (environment, type, value) triples and of all single-point near-miss mutants of each value, through annotate / typed encode / decode",
+          "Every triple: annotate_type keeps the meaning and sets variant indices, to_bytes_with_types output decodes (reference decoder, typed and untyped real decoder) to the same value at an equal type, to_bytes round-trips; every near-miss (other number width/kind, missing non-optional field, undeclared tag, other reference kind, wrong element) is accepted by typed encoding and parser-mode annotation iff typed under the three stated allowances; liberal annotation must only be type safe; try_from_candid_type on the whole Rust corpus.",
+          "Trusted: R1 typing, R2, R3. Extra record fields and missing optional fields are not near-misses (documented width subtyping / defaults).",
+          "DESIGN.md section 5 C10"),
+ "C11": E("bounded-exhaustive enumeration of values incl. every Unicode scalar value in text (alone and before 9 context characters), every byte pair in blobs, labels from keyword / hostile lists in every position, numbers +-2^k+d, float boundary lists, structure around the printer's abbreviation thresholds; print -> parse -> annotate round trip",
+          "Every value of the scope is printed by Display and Debug (as IDLArgs and as a single IDLValue), printed twice (determinism), parsed by parse_idl_args / parse_idl_value and re-annotated; the result must equal the original.",
+          "Trusted: IDLValue equality (floats by bits). Record values are built sorted by id (the parser sorts). Thorough adds all ordered pairs over 792 scalars, every scalar in every label position and all finite float32 bit patterns through a replica of the reader.",
+          "DESIGN.md section 5 C11"),
+ "C12": E("bounded-exhaustive enumeration of well-formed programs (generator U_P) and of TypeContainer exports of the Rust corpus; print -> parse -> check -> structural comparison",
+          "Every program is printed by pretty::candid::compile and syntax::pretty_print, re-parsed and re-checked; every definition and the service must be structurally equal (R3 bisimulation through the bridge and candid's own equal / service_equal) to the program's denotation; printing is deterministic; instantiate_candid and get_metadata work on the result. Every corpus type's TypeContainer export re-parses to the specified type.",
+          "Trusted: Prog::to_did / to_model (the generator's own printer quotes every label) and R3.",
+          "DESIGN.md section 5 C12"),
+ "C13": E("bounded-exhaustive enumeration of character strings (<=3, thorough 4 over a 44-character alphabet), token strings (<=4/5 over 40-73 lexemes), all single-token mutants of 40 seed sentences, nesting sweeps to depth 128, on all parser entry points in both build profiles, in worker processes",
+          "Every input goes to every entry point (IDLProg, IDLType, IDLTypes, IDLInitArgs, Test, args, value) and, on success, to check_prog / check_init_args / annotate / Display, on failure to Error::report and Display: each returns; a panic, abort or dead worker is a violation bisected to the input; diagnostics carry an in-range location; checked and release agree on Ok/Err.",
+          "Trusted: the process supervisor. pretty_parse only on the levels marked (pretty) in the evidence (it is 25x slower).",
+          "DESIGN.md section 5 C13"),
+ "C14": E("bounded-exhaustive enumeration of a complete small syntactic universe of programs (well-formed or not), of U_P, and of every single-fault mutant of U_P; real type checker vs. an independent well-formedness predicate",
+          "Every program of the universe (definition lists over 42 right-hand sides x 13 actors), every generated program and every single-fault mutant is parsed and checked; accepted iff the reference predicate R8 says well-formed; on every accepted environment name tracing, subtyping, chase_actor, encoding and the binding generators terminate without panicking (worker process with supervised death/hang detection); also check_init_args and check_file with imports.",
+          "Trusted: R8 (c14/src/wf.rs) as a reading of the spec's well-formedness rules.",
+          "DESIGN.md section 5 C14"),
+ "C15": E("bounded-exhaustive enumeration of label strings (all strings <=3, thorough <=4, over 40 characters; multi-byte strings long enough to wrap 2^32; keywords; colliding pairs found by search) across hash function, Label, parsers, macros, binary header and a generated derive-macro corpus",
+          "idl_hash equals the reference hash on every string; Label eq/ord/hash are mutually consistent on all ordered pairs; types and values written by name or by id encode to identical, strictly-ascending bytes and decode against each other; duplicate ids are rejected by parsers, macros and the header (all id sequences <=3/4); the derive macro maps ~350 labels (identifiers, raw identifiers, renames) to the parser's ids and refuses colliding pairs at compile time.",
+          "Trusted: refmodel::hash, R2. The derive corpus is a finite generated crate (compile step).",
+          "DESIGN.md section 5 C15"),
+ "C16": E("bounded-exhaustive enumeration of principals (all byte strings of length <=2, structured families for every length 0..40) and of all single (thorough: double) deviations of their canonical texts, real ic_principal parser/printer/constructors vs. a reference CRC32/base32 implementation",
+          "Every principal of the scope is printed, parsed back and pushed through every constructor and serde/candid form; every text of the deviation scope is parsed by the real parser and by the reference parser; acceptance and the returned principal must agree.",
+          "Trusted: refmodel::hash (CRC32, RFC 4648 base32, grouping) cross-checked by a second classifier. The serde binary form delivered as an owned buffer (candid's private tag-byte channel) is informational.",
+          "DESIGN.md section 5 C16"),
+ "C17": E("bounded-exhaustive enumeration of programs (U_P, all definition graphs on <=3 (thorough 4) nodes in all textual orders, alias chains, name alphabets in every position); generated JavaScript evaluated by node against a structural IDL mock and compared with the program's denotation",
+          "For every program the generated module is evaluated in strict mode; idlFactory and init must return type graphs structurally equal (R3) to the program's service and init arguments; no exception (ReferenceError = used before declaration, SyntaxError = reserved word or bad quoting); compile is deterministic. 13 hand-made mutants of a correct module must be caught by the mock before each run.",
+          "Trusted: js/mock_idl.js (the agent-js IDL surface the generator uses: constructors see object literals through Object.entries, numeric keys spelled _N_), R3.",
+          "DESIGN.md section 5 C17"),
+ "C18": E("bounded-exhaustive enumeration of programs stressing nominalisation; emitted Rust type definitions compiled in a scratch crate and each item's derived Candid type compared with the source definition",
+          "For every program emit_bindgen's type definitions are compiled (one module per program; failing modules are attributed and removed, the rest rebuilt), every item exports its derived type, and every source definition / anonymous sub-term must be matched by an item with a structurally equal type (R3); distinct source types must not collapse into one item; method signatures are compared through aliases.",
+          "Trusted: rustc + the derive macro (that is what the property quantifies over), R3, the name-insensitive item matching. The ic_cdk call stubs are not compiled.",
+          "DESIGN.md section 5 C18"),
+ "C19": E("bounded-exhaustive enumeration of programs x 6 generator entry points, with 55 hostile doc strings and 208 hostile names placed at every comment / name position; differential tokenisation against a benign twin",
+          "Each generator returns without panicking, returns the same text on a second run and on a fresh thread, defines every type name it references and mentions every method once; the token-kind sequence of the output with a hostile string equals that with a benign placeholder (no comment or string terminated early, no token injected), decided by total lexers for JS/TS, Motoko and Rust.",
+          "Trusted: the three lexers (c19/src/lex.rs) and the reachability model. No TS/Motoko compiler exists offline; closure and escaping are decided lexically.",
+          "DESIGN.md section 5 C19"),
+ "C20": E("bounded-exhaustive enumeration of all entropy seeds of length <=4 (thorough 6) over a 5-byte alphabet x environments / argument type lists x 57 generator configurations, each run in a supervised worker process",
+          "random::any either returns an error or values that annotate unchanged at the requested types, encode, and decode (reference decoder) to inhabitants of those types; it never panics, never hangs (watchdog), is deterministic in the seed, and recursive types terminate.",
+          "Trusted: R1 typing, R2. The size bound under depth/size limits is a conservative own bound and informational when the limit is set at the root of the config (documented soft limit).",
+          "DESIGN.md section 5 C20"),
 }
 
 NOT_YET = {}
@@ -47,13 +117,13 @@ def main():
         "hooks": {
             "guard": "candid_verif",
             "enable": "none needed: every explorer drives public API of /repo's crates through path dependencies (RUSTFLAGS=--cfg candid_verif reserved, unused)",
-            "baseline_off_cmd": "cd /repo && cargo test --workspace --no-fail-fast --offline",
+            "baseline_off_cmd": "cd /repo && RUSTUP_TOOLCHAIN=stable-x86_64-unknown-linux-gnu cargo nextest run --workspace --no-fail-fast --offline",
             "source_commits": [],
             "add_only": True,
         },
         "engines": [
             {"name": "mc", "path": "/verif/mc", "serves_properties": sorted(CHECKS.keys()),
-             "kind_free_text": "Rust explorer linked against /repo's crates: bounded-exhaustive scope enumeration (E1), BFS over operation histories with canonical state digests (E2), <=2-deviation mutation (E3), budget sweeps (E4); oracles are spec-derived reference models in mc/refmodel"},
+             "kind_free_text": "Rust workspace linked against /repo's crates by path (binary mc for C01-C08, C10, C12; one binary cNN per other property): bounded-exhaustive scope enumeration (E1), BFS over operation histories with canonical state digests (E2), <=2-deviation mutation (E3), budget sweeps (E4); oracles are spec-derived reference models in mc/refmodel; node (js/mock_idl.js) and rustc (generated scratch crates under /verif/work) as external evaluators for C17 / C15, C18"},
         ],
         "checks": checks,
         "not_applicable": na,
